@@ -317,6 +317,7 @@ func runC05(r *Run) {
 		"shorthand tags registered by WithComponents (also nested in the content of one another, with v-once / v-for / v-if / bound attributes on the tag: the page written with shorthand tags and with <template include> must render the same bytes); probes inside every component and after every include; non-trivial: a name collides, a required name is missing, or a bound non-string value is passed")
 	r.Assume("attribute values contain no HTML-special characters and do not start with '{' or '[' (JSON auto-decoding of static strings is documented behaviour, exercised by the repository's own fixtures); one attribute per name on an include tag")
 	c05FrontMatterSplit(r)
+	c05BoundJSONStrings(r)
 	c16ShortLong(r) // pages of nested includes written as <template include> and as shorthand tags: same bytes
 	rr := r.Rng
 	n := 1500
@@ -482,6 +483,36 @@ func c05LoopLeak(r *Run) {
 					sig2 := map[string]string{"oracle": "loop-include-no-leak", "loop": fmt.Sprint(li), "props": fmt.Sprint(pi), "what": "required"}
 					r.Fail("a component that requires a name is satisfied by a name given to an earlier include inside a loop", sig2, map[string]any{"case": desc, "then": need, "err": fmt.Sprint(err2)})
 				}
+			}
+		}
+	}
+}
+
+// a bound prop keeps its type: a string that happens to be a complete JSON document stays that string, also when the tag
+// gives the same name literally as well (a default overridden by a binding)
+func c05BoundJSONStrings(r *Run) {
+	m := fstest.MapFS{"item.vuego": &fstest.MapFile{Data: []byte(`<i data-p="1">[{{ title | type }}|{{ title }}]</i>`)}}
+	for _, v := range []string{`{"id": 7}`, `[1,2]`, `{}`, `[]`, `{"a":{"b":[1]}}`, `["x"]`} {
+		for _, f := range []struct{ name, tpl string }{
+			{"bound", `<template include="item.vuego" :title="v"></template>`},
+			{"long-bound", `<template include="item.vuego" v-bind:title="v"></template>`},
+			{"literal-then-bound", `<template include="item.vuego" title="{}" :title="v"></template>`},
+			{"bound-then-literal", `<template include="item.vuego" :title="v" title="[]"></template>`},
+			{"literal-then-long-bound", `<template include="item.vuego" title="plain" v-bind:title="v"></template>`},
+			{"in-loop", `<p v-for="x in one"><template include="item.vuego" title="{}" :title="v"></template></p>`},
+			{"conditional", `<template include="item.vuego" v-if="1 == 1" title="{}" :title="v"></template>`},
+		} {
+			var buf bytes.Buffer
+			err := vuego.NewFS(m).Fill(map[string]any{"v": v, "one": []any{1}}).RenderString(context.Background(), &buf, f.tpl)
+			got := ""
+			if mm := c05PropProbe.FindStringSubmatch(buf.String()); mm != nil {
+				got = html.UnescapeString(mm[1])
+			}
+			r.Eval("bound-json-string:"+f.name+":"+v, true, nil)
+			r.Count("stream:bound-json-string(oracle only)")
+			if want := "string|" + v; err != nil || got != want {
+				r.Fail("a bound string prop that spells a JSON document does not reach the component as that string", map[string]string{"oracle": "bound-json-string", "form": f.name},
+					map[string]any{"template": f.tpl, "value": v, "received": got, "expected": want, "err": fmt.Sprint(err)})
 			}
 		}
 	}
